@@ -1211,10 +1211,56 @@ impl Fam for TwoEnums {
     }
 }
 
+// ---- standard-library types with Serde implementations of their own (several have two
+// representations, chosen by `is_human_readable`: seed C18-g3)
+macro_rules! std_fam {
+    ($t:ty, $name:expr, $inh:expr, $sh:expr) => {
+        impl Fam for $t {
+            fn tname() -> String {
+                $name.to_string()
+            }
+            fn inhabitants(_b: &Budget) -> Vec<Self> {
+                $inh
+            }
+            fn sh(&self) -> Sh {
+                let f: fn(&$t) -> Sh = $sh;
+                f(self)
+            }
+        }
+    };
+}
+fn field_alist(fields: Vec<(&str, Sh)>) -> Sh {
+    Sh::Alist(fields.into_iter().map(|(k, v)| (Sh::sym(k), v)).collect())
+}
+fn variant(name: &str, payload: Sh) -> Sh {
+    Sh::Cons(Box::new(Sh::sym(name)), Box::new(payload))
+}
+std_fam!(std::net::Ipv4Addr, "std::net::Ipv4Addr", vec![[0, 0, 0, 0].into(), [127, 0, 0, 1].into(), [10, 0, 0, 7].into(), [255, 255, 255, 255].into()], |x| Sh::A(RV::Str(x.to_string())));
+std_fam!(std::net::Ipv6Addr, "std::net::Ipv6Addr", vec![std::net::Ipv6Addr::UNSPECIFIED, std::net::Ipv6Addr::LOCALHOST, std::net::Ipv6Addr::new(0x2001, 0xdb8, 0, 0, 0, 0xff00, 0x42, 0x8329)], |x| Sh::A(RV::Str(x.to_string())));
+std_fam!(std::net::IpAddr, "std::net::IpAddr", vec![std::net::IpAddr::V4([10, 0, 0, 7].into()), std::net::IpAddr::V6(std::net::Ipv6Addr::LOCALHOST)], |x| Sh::A(RV::Str(x.to_string())));
+std_fam!(std::net::SocketAddrV4, "std::net::SocketAddrV4", vec![std::net::SocketAddrV4::new([10, 0, 0, 7].into(), 8080), std::net::SocketAddrV4::new([0, 0, 0, 0].into(), 0)], |x| Sh::A(RV::Str(x.to_string())));
+std_fam!(std::time::Duration, "std::time::Duration", vec![std::time::Duration::new(0, 0), std::time::Duration::new(1, 999_999_999), std::time::Duration::new(u64::MAX, 0), std::time::Duration::new(7, 5)], |x| field_alist(vec![("secs", x.as_secs().sh()), ("nanos", x.subsec_nanos().sh())]));
+std_fam!(std::num::NonZeroU8, "std::num::NonZeroU8", vec![std::num::NonZeroU8::new(1).unwrap(), std::num::NonZeroU8::new(255).unwrap()], |x| Sh::A(RV::Int(x.get() as i128)));
+std_fam!(std::num::Wrapping<u8>, "std::num::Wrapping<u8>", vec![std::num::Wrapping(0), std::num::Wrapping(255)], |x| Sh::A(RV::Int(x.0 as i128)));
+std_fam!(std::ops::Range<u8>, "std::ops::Range<u8>", vec![0..0, 1..255, 9..3], |x| field_alist(vec![("start", x.start.sh()), ("end", x.end.sh())]));
+std_fam!(Result<u8, String>, "Result<u8, String>", vec![Ok(0), Ok(255), Err(String::new()), Err("Ok".into())], |x| match x {
+    Ok(n) => variant("Ok", n.sh()),
+    Err(e) => variant("Err", e.sh()),
+});
+std_fam!(std::ops::Bound<u8>, "std::ops::Bound<u8>", vec![std::ops::Bound::Unbounded, std::ops::Bound::Included(0), std::ops::Bound::Excluded(255)], |x| match x {
+    std::ops::Bound::Unbounded => Sh::sym("Unbounded"),
+    std::ops::Bound::Included(n) => variant("Included", n.sh()),
+    std::ops::Bound::Excluded(n) => variant("Excluded", n.sh()),
+});
+
 pub fn family() -> Vec<Box<dyn Runner>> {
     let mut v = family_core();
     assert_eq!(v.len(), N_CORE);
     v.extend(reg![TwoStep, Vec<TwoStep>, Vec<char>, BTreeSet<char>, Vec<(char, char)>, BTreeMap<i16, u8>, BTreeMap<u32, String>, TwoEnums, Vec<TwoEnums>]);
+    v.extend(reg![
+        std::net::Ipv4Addr, std::net::Ipv6Addr, std::net::IpAddr, std::net::SocketAddrV4, std::time::Duration, std::num::NonZeroU8, std::num::Wrapping<u8>,
+        std::ops::Range<u8>, Result<u8, String>, std::ops::Bound<u8>, Vec<std::net::Ipv4Addr>, Option<std::net::SocketAddrV4>, BTreeMap<String, std::time::Duration>,
+    ]);
     v.extend(reg_positions![
         (), u64, f64, String, ByteBuf, Option<u8>, Option<Option<u8>>, Option<()>, Option<Vec<u8>>, Vec<u8>, Vec<Option<u8>>, Vec<Vec<()>>,
         (u8, String), [u8; 0], UnitS, Tup0S, EmptyS, K, E, BTreeMap<String, Option<u8>>, NewtypeS,
